@@ -483,5 +483,7 @@ package txmgr
 //@   ensures err == nil ==> flags != nil
 //@   ensures err == nil && flags.SpentByUnmined ==> bhasI(B(tx, s.bucketMeta.nsUnminedInputs), canonicalOutPoint(&out.Hash, out.Index))
 //@   ensures err != nil ==> flags == nil
-//@   loop#1 invariant cred.block != nil && fresh(cred.block) && out != nil && nsUnminedInputs != nil && bid(nsUnminedInputs) == B(tx, s.bucketMeta.nsUnminedInputs)
-//@   loop#2 invariant cred.block != nil && fresh(cred.block) && out != nil && nsUnminedInputs != nil && bid(nsUnminedInputs) == B(tx, s.bucketMeta.nsUnminedInputs)
+//@   loop#1 modifies &cred, cred.block
+//@   loop#1 invariant cred.block == old(cred.block)
+//@   loop#2 modifies &cred, cred.block
+//@   loop#2 invariant cred.block == old(cred.block)
